@@ -21,8 +21,8 @@ OWN = os.path.join(vlib.ROOT, 'certs')
 CERTS = {}
 
 
-def _reg(name, cert, key, issuer, validity, san, roles):
-    CERTS[name] = {'cert': cert, 'key': key, 'issuer': issuer, 'validity': validity, 'san': san, 'roles': roles, 'name': name}
+def _reg(name, cert, key, issuer, validity, san, roles, cn='DO NOT USE', chain=None):
+    CERTS[name] = {'cert': cert, 'key': key, 'issuer': issuer, 'validity': validity, 'san': san, 'roles': roles, 'name': name, 'cn': cn, 'chain': chain}
 
 
 def _init_certs():
@@ -37,6 +37,11 @@ def _init_certs():
                                ('client_notyet', 'notyet', None, ['operator']), ('client_otherrole', 'ok', None, ['viewer']),
                                ('client_roleless', 'ok', 'client.example', []), ('client_tworoles', 'ok', None, ['operator', 'engineer'])]:
         _reg(f'ca2/{n}', f'{o}/ca2/{n}_cert.pem', f'{o}/ca2/{n}_key.pem', 'ca2', val, san, roles)
+    # name handling (SAN-or-CN) and an intermediate authority
+    _reg('ca2/server_cnonly', f'{o}/ca2/server_cnonly_cert.pem', f'{o}/ca2/server_cnonly_key.pem', 'ca2', 'ok', None, [], cn='test.com')
+    _reg('ca2/server_sanother_cntest', f'{o}/ca2/server_sanother_cntest_cert.pem', f'{o}/ca2/server_sanother_cntest_key.pem', 'ca2', 'ok', 'other.example', [], cn='test.com')
+    _reg('ca2/server_viaint', f'{o}/ca2/server_viaint_cert.pem', f'{o}/ca2/server_viaint_key.pem', 'ca2-int', 'ok', 'test.com', [], chain=f'{o}/ca2/int_cert.pem')
+    _reg('ca2/client_viaint', f'{o}/ca2/client_viaint_cert.pem', f'{o}/ca2/client_viaint_key.pem', 'ca2-int', 'ok', None, ['operator'], chain=f'{o}/ca2/int_cert.pem')
     for n, val, san, roles in [('client', 'ok', None, ['operator']), ('client_expired', 'expired', None, ['operator']),
                                ('client_notyet', 'notyet', None, ['operator']), ('client_otherrole', 'ok', None, ['viewer']),
                                ('client_roleless', 'ok', 'client.example', []), ('server', 'ok', 'test.com', []),
@@ -62,14 +67,25 @@ def cell(side, mn, mode, authz, name, trust, local, peer, offer, presented, labe
 
 def truth(c):
     """ground truth about the presented certificate relative to the endpoint's configuration"""
-    p = CERTS.get(c['presented']) if c['presented'] else None
+    pname, with_chain = presented_of(c)
+    p = CERTS.get(pname) if pname else None
     if p is None:
         return dict(chains=False, identical=False, valid=False, name=False, roles=[], offers12=False, offers13=False)
-    chains = c['mode'] == 'ca' and p['issuer'] == c['trust']
-    identical = c['mode'] == 'ss' and c['presented'] == c['trust']
-    name_ok = bool(c['name']) and p['san'] == c['name']
+    # a certificate issued by the intermediate chains to the authority iff the intermediate is presented with it
+    chains = c['mode'] == 'ca' and (p['issuer'] == c['trust'] or (with_chain and p['issuer'] == c['trust'] + '-int'))
+    identical = c['mode'] == 'ss' and pname == c['trust']
+    # SAN-or-CN: the subjectAltName decides when there is one, otherwise the common name
+    name_ok = bool(c['name']) and ((p['san'] == c['name']) if p['san'] else (p['cn'] == c['name']))
     return dict(chains=chains, identical=identical, valid=p['validity'] == 'ok', name=name_ok, roles=p['roles'],
                 offers12=c['offer'] in ('12', 'both'), offers13=c['offer'] in ('13', 'both'))
+
+
+def presented_of(c):
+    """(certificate name, presented together with its intermediate)"""
+    n = c['presented']
+    if n and n.endswith('+chain'):
+        return n[:-6], True
+    return n, False
 
 
 def harness_line(c):
@@ -78,7 +94,8 @@ def harness_line(c):
     t = [f'side={c["side"]}', f'min={c["min"]}', f'mode={c["mode"]}', f'authz={int(c["authz"])}', f'name={c["name"] or "-"}',
          f'trust={trust}', f'cert={loc["cert"]}', f'key={loc["key"]}', f'peer={c["peer"]}', f'offer={c["offer"]}']
     if c['presented']:
-        p = CERTS[c['presented']]
+        pname, with_chain = presented_of(c)
+        p = CERTS[pname]
         # what the PEER trusts: whatever makes it accept the endpoint under test (the peer is not under test)
         if c['mode'] == 'ca':
             ptrust = CA_FILES[loc['issuer']] if loc['issuer'] in CA_FILES else loc['cert']
@@ -86,8 +103,13 @@ def harness_line(c):
         else:
             ptrust = loc['cert']
             pmode = 'ss'
-        t += [f'pmode={pmode}', f'ptrust={ptrust}', f'pcert={p["cert"]}', f'pkey={p["key"]}', 'pauthz=0']
-        if c['side'] == 'server' and pmode == 'ca':
+        pcert = p['cert']
+        if with_chain and c['peer'] == 'rodbus':
+            pcert = p['cert'].replace('_cert.pem', '_fullchain.pem')      # leaf + intermediate in one file
+        t += [f'pmode={pmode}', f'ptrust={ptrust}', f'pcert={pcert}', f'pkey={p["key"]}', 'pauthz=0']
+        if with_chain and c['peer'] == 'openssl':
+            t.append(f'pchain={p["chain"]}')
+        if c['side'] in ('server', 'ffiserver') and pmode == 'ca':
             t.append(f'pname={loc["san"] or "-"}')
     return ' '.join(t)
 
@@ -99,7 +121,7 @@ def to_coq(c):
     cert = (f'{{| chains_to_authority := {b(g["chains"])}; identical_to_configured := {b(g["identical"])}; '
             f'within_validity := {b(g["valid"])}; name_matches := {b(g["name"])}; cert_exts := {exts} |}}')
     peer = f'{{| offers12 := {b(g["offers12"])}; offers13 := {b(g["offers13"])}; presented := {cert} |}}'
-    side = 'ServerSide' if c['side'] == 'server' else 'ClientSide'
+    side = 'ServerSide' if c['side'] in ('server', 'ffiserver') else 'ClientSide'
     mn = 'V1_2' if c['min'] == '12' else 'V1_3'
     mode = 'AuthorityBased' if c['mode'] == 'ca' else 'SelfSigned'
     ep = (f'{{| e_side := {side}; e_min := {"TLS12" if c["min"] == "12" else "TLS13"}; e_mode := {"ModeAuthority" if c["mode"] == "ca" else "ModeSelfSigned"}; '
@@ -124,6 +146,7 @@ def grid(full):
         ('expired', 'ca2', 'ca2/server', 'ca2/client_expired'), ('not-yet-valid', 'ca2', 'ca2/server', 'ca2/client_notyet'),
         ('role-less', 'ca2', 'ca2/server', 'ca2/client_roleless'), ('other-role', 'ca2', 'ca2/server', 'ca2/client_otherrole'),
         ('two-roles', 'ca2', 'ca2/server', 'ca2/client_tworoles'),
+        ('via-intermediate', 'ca2', 'ca2/server', 'ca2/client_viaint+chain'), ('missing-intermediate', 'ca2', 'ca2/server', 'ca2/client_viaint'),
     ]
     server_ss = [  # (label, configured peer cert, local, presented)
         ('valid', 'repo/entity1', 'repo/entity2', 'repo/entity1'), ('valid2', 'ss/client', 'ss/server', 'ss/client'),
@@ -139,6 +162,11 @@ def grid(full):
                         for label, trust, local, pres in scen:
                             add(cell('server', mn, mode, authz, None, trust, local, peer, offer, pres, label))
             add(cell('server', mn, mode, True, None, scen[1][1], scen[1][2], 'plain', 'both', None, 'modbus-in-clear'))
+            # the same server created through the C ABI (rodbus_server_create_tls / _with_authz), independent peer
+            for authz in (True, False):
+                for offer in ('12', '13', 'both'):
+                    for label, trust, local, pres in scen:
+                        add(cell('ffiserver', mn, mode, authz, None, trust, local, 'openssl', offer, pres, label))
     # ------------------------------------------------ rodbus client under test
     client_ca = [  # (label, expected name, trust CA, local client cert, presented server cert)
         ('valid', 'test.com', 'repoCA', 'repo/client', 'repo/server'), ('valid2', 'test.com', 'ca2', 'ca2/client', 'ca2/server'),
@@ -146,6 +174,8 @@ def grid(full):
         ('no-name-expected', None, 'ca2', 'ca2/client', 'ca2/server_wrongname'),
         ('wrong-authority', 'test.com', 'ca2', 'ca2/client', 'repo/server'), ('wrong-authority2', 'test.com', 'repoCA', 'repo/client', 'ca2/server'),
         ('expired', 'test.com', 'ca2', 'ca2/client', 'ca2/server_expired'), ('not-yet-valid', 'test.com', 'ca2', 'ca2/client', 'ca2/server_notyet'),
+        ('name-in-cn-no-san', 'test.com', 'ca2', 'ca2/client', 'ca2/server_cnonly'), ('name-in-cn-but-other-san', 'test.com', 'ca2', 'ca2/client', 'ca2/server_sanother_cntest'),
+        ('via-intermediate', 'test.com', 'ca2', 'ca2/client', 'ca2/server_viaint+chain'), ('missing-intermediate', 'test.com', 'ca2', 'ca2/client', 'ca2/server_viaint'),
     ]
     client_ss = [  # (label, configured peer cert, local, presented)
         ('valid', 'repo/entity2', 'repo/entity1', 'repo/entity2'), ('valid2', 'ss/server', 'ss/client', 'ss/server'),
@@ -159,6 +189,13 @@ def grid(full):
                     add(cell('client', mn, 'ca', False, name, trust, local, peer, offer, pres, label))
                 for label, trust, local, pres in client_ss:
                     add(cell('client', mn, 'ss', False, None, trust, local, peer, offer, pres, label))
+    # the client created through the C ABI (rodbus_client_channel_create_tls), independent peer
+    for mn in ('12', '13'):
+        for offer in ('12', '13', 'both'):
+            for label, name, trust, local, pres in client_ca:
+                add(cell('fficlient', mn, 'ca', False, name, trust, local, 'openssl', offer, pres, label))
+            for label, trust, local, pres in client_ss:
+                add(cell('fficlient', mn, 'ss', False, None, trust, local, 'openssl', offer, pres, label))
     if full:
         return cells
     # core grid: every version cell with a valid certificate against the independent peer, plus one
@@ -179,6 +216,9 @@ def grid(full):
     return core
 
 
+SIDE_NAMES = {'ffiserver': 'server created through the C ABI', 'fficlient': 'client created through the C ABI'}
+
+
 def judge(c, impl, want):
     """compare one harness result with an expected 'OK:ver:role' / 'REFUSED'; returns None or a description"""
     parts = impl.split(':')
@@ -191,9 +231,9 @@ def judge(c, impl, want):
     if res == 'OK':
         if ver != '-' and ver != w[1]:
             return f'negotiated {ver} but expected {w[1]}'
-        if c['side'] == 'server' and roles != w[2]:
+        if c['side'] in ('server', 'ffiserver') and roles != w[2]:
             return f'role seen by the authorization handler {roles} but expected {w[2]}'
-        if c['side'] == 'server' and calls != '1':
+        if c['side'] in ('server', 'ffiserver') and calls != '1':
             return f'{calls} handler calls for one request'
     else:
         if calls != '0' or roles != '-':
@@ -239,6 +279,7 @@ def run(ctx):
     both = ctx.coq_eval(REQ, FN, [to_coq(c) for c in cells], case_type=CASE_T, preamble='Local Open Scope string_scope.', per_shard=60)
     # a failing cell is repeated once on its own (process start-up races of the external peer), outcome only
     suspects = [k for k, (c, i, b) in enumerate(zip(cells, impl, both)) if judge(c, i, b.split('#')[1]) or judge(c, i, b.split('#')[0])]
+    repeated_detail = [[cells[k]['side'], cells[k]['label'], cells[k]['peer'], cells[k]['offer'], impl[k], both[k].split('#')[1]] for k in suspects[:8]]
     if suspects:
         again = ctx.harness('tls', [harness_line(cells[k]) for k in suspects], args=[OPENSSL], shards=1, timeout=900)
         for k, i2 in zip(suspects, again):
@@ -269,7 +310,7 @@ def run(ctx):
         if cls in seen or len(seen) >= 4:
             continue
         seen.add(cls)
-        ctx.violation(key_of(c, i, spec), f'rodbus TLS {c["side"]} (min TLS 1.{c["min"][1]}, {"authority" if c["mode"] == "ca" else "self-signed"} mode, '
+        ctx.violation(key_of(c, i, spec), f'rodbus TLS {SIDE_NAMES.get(c["side"], c["side"])} (min TLS 1.{c["min"][1]}, {"authority" if c["mode"] == "ca" else "self-signed"} mode, '
                       f'{"with" if c["authz"] else "without"} authorization) against a {c["peer"]} peer offering {c["offer"]} presenting a {c["label"]} certificate: {d} (harness: {i}, Spec: {spec})',
                       {'cases': [c], 'impl': i, 'spec': spec, 'harness_line': harness_line(c), 'ground_truth': truth(c)})
     ctx.oblige('correspondence:tls-handshake-grid', n_spec == 0 and n_model == 0, f'{n_model} model / {n_spec} spec mismatches in {len(cells)} cells')
@@ -279,8 +320,9 @@ def run(ctx):
                   f'authz:{int(c["authz"])}', 'expected:' + b.split('#')[1].split(':')[0]):
             classes[k] = classes.get(k, 0) + 1
     if not ctx.replay:
-        need = ['side:server', 'side:client', 'min:12', 'min:13', 'mode:ca', 'mode:ss', 'peer:openssl', 'peer:rodbus', 'peer:plain', 'offer:12', 'offer:13',
-                'offer:both', 'cert:valid', 'cert:wrong-authority', 'cert:wrong-name', 'cert:expired', 'cert:not-yet-valid', 'cert:role-less', 'cert:other-role', 'cert:two-roles',
+        need = ['side:server', 'side:client', 'side:ffiserver', 'side:fficlient', 'min:12', 'min:13', 'mode:ca', 'mode:ss', 'peer:openssl', 'peer:rodbus', 'peer:plain', 'offer:12', 'offer:13',
+                'offer:both', 'cert:valid', 'cert:wrong-authority', 'cert:wrong-name', 'cert:expired', 'cert:not-yet-valid', 'cert:role-less', 'cert:other-role', 'cert:two-roles', 'cert:via-intermediate', 'cert:missing-intermediate', 'cert:name-in-cn-no-san',
+                'cert:name-in-cn-but-other-san',
                 'expected:OK', 'expected:REFUSED']
         ctx.oblige('grid-reaches-expected-classes', all(classes.get(k, 0) >= 1 for k in need), str({k: classes.get(k, 0) for k in need}))
     ctx.coverage.update({
@@ -292,4 +334,5 @@ def run(ctx):
         'exhaustive': True,
         'grid': 'full grid of the property (see rule), every cell; quick: one sweep, thorough: three sweeps in different orders',
         'repeated_cells': len(suspects),
+        'repeated_detail': repeated_detail,
     })
